@@ -261,6 +261,8 @@ pub fn family_g() -> Vec<String> {
         "exists X (X > 1 and q(X))",
         "exists X (X >= a and q(X))",
         "forall X (X < #inf or q(X))",
+        "forall X (#inf < X)", "forall X (q(X) -> X < #sup)", "exists X (not #inf < X)", "forall X (#inf < X or q(X))", "forall X (#inf <= X)", "exists X (X >= #sup and q(X))",
+        "forall X (X <= #sup)", "exists X (#sup < X)", "forall X$i (#inf < X$i < #sup)", "forall X (#inf < X < #sup)",
         "exists X$s (q(X$s))",
         "forall X$s (X$s = a -> q(X$s))",
     ]
